@@ -76,6 +76,43 @@ def _prod(xs):
     return p
 
 
+ROW_PATTERNS = ["random", "random", "random", "random", "sorted", "runs", "constant", "alternating"]
+
+
+def apply_row_pattern(data, N, pattern, run=3):
+    """Real data is rarely uniform noise: rows sorted by category, long runs of identical rows, a constant column,
+    two alternating rows. `data` is the row-major flat list of an (N, ...) array."""
+    if pattern == "random" or N == 0:
+        return data
+    width = len(data) // N
+    rows = [data[r * width:(r + 1) * width] for r in range(N)]
+    if pattern == "sorted":
+        rows = sorted(rows)
+    elif pattern == "runs":
+        rows = [rows[(r // run) * run] for r in range(N)]
+    elif pattern == "constant":
+        rows = [rows[0]] * N
+    elif pattern == "alternating":
+        rows = [rows[r % 2] if N > 1 else rows[0] for r in range(N)]
+    return [x for row in rows for x in row]
+
+
+VALID_PATTERNS = ["random", "random", "random", "all", "all_but_last", "all_but_first", "none_but_last"]
+
+
+def apply_valid_pattern(valid, N, pattern):
+    if pattern == "random" or N == 0:
+        return valid
+    width = len(valid) // N
+    if pattern == "all":
+        return [True] * len(valid)
+    if pattern == "all_but_last":
+        return [True] * (len(valid) - width) + [False] * width
+    if pattern == "all_but_first":
+        return [False] * width + [True] * (len(valid) - width)
+    return [False] * (len(valid) - width) + [True] * width
+
+
 @st.composite
 def dim_specs(draw, N, tails, big_ok=False, big_extents=None):
     tail = list(draw(st.sampled_from(tails)))
@@ -85,6 +122,7 @@ def dim_specs(draw, N, tails, big_ok=False, big_extents=None):
         palette = [0, 1, e - 2, e - 1]
         raw = draw(st.lists(st.integers(0, 7), min_size=size, max_size=size))
         data = [palette[x] if x < 4 else 0 for x in raw]
+        data = apply_row_pattern(data, N, draw(st.sampled_from(ROW_PATTERNS)), draw(st.sampled_from([2, 3, 8])))
         common = draw(st.sampled_from([0, 0] + palette + [e]))
         return {"tail": tail, "data": data, "common": common, "big": True}
     e = draw(st.integers(1, 5))
@@ -92,6 +130,7 @@ def dim_specs(draw, N, tails, big_ok=False, big_extents=None):
     d = draw(st.integers(0, e - 1))
     raw = draw(st.lists(st.integers(0, e + k - 1), min_size=size, max_size=size))
     data = [x if x < e else d for x in raw]
+    data = apply_row_pattern(data, N, draw(st.sampled_from(ROW_PATTERNS)), draw(st.sampled_from([2, 3, 8])))
     common = draw(st.one_of(st.just(d), st.integers(0, e)))
     return {"tail": tail, "data": data, "common": common, "big": False}
 
@@ -99,7 +138,8 @@ def dim_specs(draw, N, tails, big_ok=False, big_extents=None):
 @st.composite
 def cube_specs(draw, max_nd=3, min_nd=0, max_n=40, tails=((), (), (2,), (3,), (1,), (2, 2)),
                big_ok=False, min_n=0, force_multi=False, big_extents=None):
-    N = draw(st.one_of(st.integers(min_n, min(max_n, max(min_n, 3))), st.integers(min_n, max_n)))
+    N = draw(st.one_of(st.integers(min_n, min(max_n, max(min_n, 3))), st.integers(min_n, max_n), st.integers(min_n, max_n),
+                       st.sampled_from([n for n in (1, 2, 4, 8, 16, 32, 64) if min_n <= n <= max_n] or [min_n])))
     nd = draw(st.integers(min_nd, max_nd))
     dims = []
     nbig = 0
@@ -161,6 +201,8 @@ def fact_specs(N, dtypes=("float", "int"), max_k=3, dyadic=True, magnitudes=Fals
             is_dyadic = False
         pmiss = draw(st.sampled_from([0, 1, 3, 7]))
         valid = draw(st.lists(st.integers(0, 7).map(lambda x: x >= pmiss), min_size=size, max_size=size))
+        valid = apply_valid_pattern(valid, N, draw(st.sampled_from(VALID_PATTERNS)))
+        vals = apply_row_pattern(vals, N, draw(st.sampled_from(ROW_PATTERNS)), draw(st.sampled_from([2, 3, 8])))
         junk = draw(st.lists(st.integers(0, 2), min_size=size, max_size=size))
         as_list = draw(st.booleans()) if N >= 1 else False
         return {"K": K, "dtype": dtype, "form": form, "values": vals, "valid": valid, "junk": junk,
@@ -203,11 +245,15 @@ def weight_specs(N, scalar_ok=True, zero_ok=True, kinds=("none", "scalar", "arra
                                            st.integers(lo, 2 ** 14)), min_size=N, max_size=N))
         else:
             vals = draw(st.lists(st.integers(lo, 5), min_size=N, max_size=N))
+        if N and draw(st.integers(0, 5)) == 0:
+            one = 1 if dtype == "int" else (1.0 if rough else 1024)
+            vals = [draw(st.sampled_from([vals[0] or one, one, one]))] * N  # all weights equal, mostly exactly 1
         pmiss = draw(st.sampled_from([0, 0, 1, 3]))
         if form == "plain":
             valid = [True] * N
         else:
             valid = draw(st.lists(st.integers(0, 7).map(lambda x: x >= pmiss), min_size=N, max_size=N))
+            valid = apply_valid_pattern(valid, N, draw(st.sampled_from(VALID_PATTERNS)))
         junk = draw(st.lists(st.integers(0, 2), min_size=N, max_size=N))
         as_list = draw(st.booleans()) if N >= 1 else False
         return {"kind": "array", "dtype": dtype, "form": form, "values": vals, "valid": valid,
@@ -572,23 +618,30 @@ def pool_specs():
 
 
 @st.composite
-def large_specs(draw, aggs, max_k=10):
+def large_specs(draw, aggs, max_k=10, many_ok=True, min_nd=0):
     """Hundreds to thousands of rows, few or MANY categories (extent ~ N / 3), up to ten fact columns: size-dependent
     paths inside the aggregate functions (buffers, bincount lengths, per-category loops) are crossed.
     The row data is generated from three small integers by expand()."""
-    N = draw(st.sampled_from([300, 1100, 2500]))
-    nd = draw(st.sampled_from([1, 1, 2]))
+    N = draw(st.sampled_from([256, 300, 1024, 1100, 2048, 2500, 256, 1024, 65536]))
+    nd = draw(st.sampled_from([n for n in [0, 1, 1, 1, 2, 2] if n >= min_nd]))
     dims = []
     for i in range(nd):
-        many = i == 0 and draw(st.booleans())
-        extent = draw(st.sampled_from([N // 3, 257, 1000])) if many else draw(st.integers(2, 5))
+        many = many_ok and i == 0 and N < 60000 and draw(st.booleans())
+        extent = draw(st.sampled_from([N // 3, 257, 1000])) if many else draw(st.sampled_from([1, 2, 3, 4, 5]))
         tail = [] if (many or i > 0) else list(draw(st.sampled_from([(), (), (2,), (3,)])))
         dims.append({"tail": tail, "extent": extent, "common": draw(st.sampled_from([0, 1, extent - 1, extent])),
                      "big": False})
     agg = draw(st.sampled_from(aggs))
     case = {"N": N, "dims": dims, "shape_mode": draw(st.sampled_from(["inferred", "exact"])), "pads": [1] * nd,
             "readonly": False, "reverse": draw(st.booleans()), "alias": None, "agg": agg,
-            "recipe": [draw(st.integers(1, 9)), draw(st.integers(0, 9)), draw(st.integers(0, 9))]}
+            "recipe": [draw(st.integers(1, 9)), draw(st.integers(0, 9)), draw(st.integers(0, 9))],
+            # row order: hashed noise, SORTED by the first dimension (a file grouped by wave / country: every category
+            # is one long run of consecutive rows), or blocks of exactly 64 / 1024 identical rows
+            "rows": draw(st.sampled_from(["random", "sorted", "sorted", "blocks64", "blocks1024"])),
+            # a quarter of the rows outside the favourite category, or only one row in ~200 (very sparse indexes)
+            "density": draw(st.sampled_from(["quarter", "quarter", "rare"])),
+            # missing pattern of facts and weights: hashed (about one row in 11 / 13) or none at all
+            "valid": draw(st.sampled_from(["hashed", "hashed", "all"]))}
     case["fact"] = None if agg == "count" else {
         "K": draw(st.sampled_from([None, None, 2, max_k])), "dtype": draw(st.sampled_from(["float", "int"])),
         "form": "tuple", "as_list": False, "dyadic": True, "mode": "plain"}
@@ -598,12 +651,14 @@ def large_specs(draw, aggs, max_k=10):
                                                     "as_list": False, "rough": False, "wide": False},
                                             {"kind": "array", "dtype": "int", "form": "plain", "as_list": False,
                                              "rough": False, "wide": False}]))
+    if case["weights"] is not None:
+        case["weights"] = dict(case["weights"], ones=draw(st.integers(0, 3)) == 0)  # every weight exactly 1
     return case
 
 
 def expand(case):
     """Fill in the row data of a recipe case (deterministic arithmetic on three small integers)."""
-    if not case.get("recipe") or "data" in (case["dims"][0] if case["dims"] else {"data": 1}):
+    if not case.get("recipe") or case.get("expanded"):
         return case
     N = case["N"]
     a, b, c = case["recipe"]
@@ -617,25 +672,41 @@ def expand(case):
         data = []
         for i in range(size):
             h = (i * (7 + 2 * a + j) + (i // (3 + c)) * 13 + i * i % (5 + b)) % (4 * ext)
+            if case.get("density") == "rare" and (i * 37 + a + 11 * j) % 197 != 0:
+                h = 4 * ext
             data.append(h if h < ext else fav)
+        rows = case.get("rows", "random")
+        if j == 0 and rows != "random":
+            width = _prod(d["tail"])
+            if rows == "sorted":
+                chunks = sorted(data[r * width:(r + 1) * width] for r in range(N))
+            else:
+                run = 64 if rows == "blocks64" else 1024
+                chunks = [data[((r // run) * run) * width:((r // run) * run + 1) * width] for r in range(N)]
+            data = [x for ch in chunks for x in ch]
         dims.append(dict(d, data=data))
     case["dims"] = dims
     if case.get("fact") is not None:
         f = dict(case["fact"])
         K = f["K"] or 1
         f["values"] = [((i * 7 + a + (i // K) * 3) % 41) - 20 for i in range(N * K)]
-        f["valid"] = [((i + b) % 11) != 0 for i in range(N * K)]
+        f["valid"] = [((i + b) % 11) != 0 or case.get("valid") == "all" for i in range(N * K)]
         f["junk"] = [i % 3 for i in range(N * K)]
         case["fact"] = f
     if case.get("weights") is not None:
         w = dict(case["weights"])
-        if w["dtype"] == "int":
+        if w.get("ones"):
+            w["values"] = [1 if w["dtype"] == "int" else 1024] * N
+            w["valid"] = [True] * N if w["dtype"] == "int" else [((i + a) % 13) != 0 or case.get("valid") == "all"
+                                                                 for i in range(N)]
+        elif w["dtype"] == "int":
             w["values"] = [(i + c) % 4 for i in range(N)]
             w["valid"] = [True] * N
         else:
             w["values"] = [512 * ((i + c) % 5) for i in range(N)] if w.get("zero_ok", True) else [
                 512 * (1 + (i + c) % 4) for i in range(N)]
-            w["valid"] = [((i + a) % 13) != 0 for i in range(N)]
+            w["valid"] = [((i + a) % 13) != 0 or case.get("valid") == "all" for i in range(N)]
         w["junk"] = [i % 3 for i in range(N)]
         case["weights"] = w
+    case["expanded"] = True
     return case
